@@ -1,6 +1,7 @@
 import vpdriver
 
 PROP = {
+    "ready": True,
     "harness": ["harness/C11.cpp"],
     "units": vpdriver.libc_units(["stdlib/strtol.c", "stdlib/strtoul.c", "stdlib/strtoll.c", "stdlib/strtoull.c",
                                   "inttypes/strtoimax.c", "stdlib/atol.c", "stdlib/qsort.c", "stdlib/bsearch.c",
